@@ -385,6 +385,15 @@ func (c *Ctx) VerifyLemma(name string) (rep *FuncReport) {
 		env[v.Name] = val
 		c.registerInputs(v.Name, val, st)
 	}
+	for _, ga := range c.S.Globals {
+		for _, u := range strings.Split(lm.Uses, ",") {
+			if strings.TrimSpace(u) == ga.Clause.Label && u != "" && ga.Pkg == lm.PkgPath {
+				ev := &Ev{fr: fr, c: c, st: st, old: st, env: env, pkg: pkg}
+				c.addFact(ev.boolTerm(ga.Clause.Expr))
+				c.AssumedLib["assume-global["+ga.Clause.Label+"] "+ga.Clause.Src] = true
+			}
+		}
+	}
 	for i, s := range lm.Steps {
 		ev := &Ev{fr: fr, c: c, st: st, old: st, env: env, pkg: pkg}
 		switch s.Kind {
